@@ -82,17 +82,23 @@ int main(int argc, char** argv) {
       }
       if (biased) args["biased_swap_kill"] = "true";
     } else if (plugin == "kill_by_pressure") args["resource"] = "memory";
+    // nested: the siblings live under an over-committed parent whose protection is half of what they claim together,
+    // so each one's effective protection is HALF its memory.low (the normalisation across siblings is part of the
+    // ranking input); with 4 GiB units the intermediate products exceed 2^63
+    bool nested = (plugin == "kill_by_memory_size_or_growth" || plugin == "kill_by_swap_usage") && family < 7 && r.chance(40);
+    if (nested) args["cgroup"] = "p/s*";
     std::vector<Sib> S(n);
     for (int again = 0; again < 50; again++) {
       bool onBoundary = false;
       for (int i = 0; i < n; i++) {
         Sib& s = S[i];
-        s.name = "s" + std::to_string(i);
+        s.name = (nested ? "p/s" : "s") + std::to_string(i);
         int x = r.upto(100); s.pref = x < 15 ? 1 : (x < 30 ? -1 : 0);
         s.usage1 = 1 + r.upto(24); s.usage = 1 + r.upto(30);
         if (r.chance(30)) s.usage = s.usage1;                       // not growing
         s.prot = r.chance(40) ? r.upto((int)s.usage) : 0; if (s.prot >= s.usage) s.prot = 0;
-        if (plugin == "kill_by_swap_usage") s.prot = 2 * r.upto(8), s.usage = 20;
+        if (plugin == "kill_by_swap_usage") s.prot = 2 * r.upto(nested ? 6 : 8), s.usage = 20;
+        if (nested && 2 * s.prot > std::min(s.usage, s.usage1)) s.prot = std::min(s.usage, s.usage1) / 2;
         s.swap = r.pick(std::vector<long long>{0, 1, 5, 6, 10, 11, 25, 26, 40});
         int base = r.pick(std::vector<int>{1000, 5000, 5000, 9000});
         s.p10 = base + r.upto(100); s.p60 = base + r.upto(100);
@@ -132,11 +138,20 @@ int main(int argc, char** argv) {
     std::map<std::string, long long> ioCum, pgCum;
     const int kTicks = 3; // 2 warm-up ticks at usage1, then the deciding tick
     for (int tick = 1; tick <= kTicks; tick++) {
+      if (nested) {
+        long long sumProt = 0, sumUse = 0;
+        for (auto& s : S) { sumProt += s.prot; sumUse += std::max(s.usage, s.usage1); }
+        fs.mkcg("p");
+        fs.write("p", "memory.current", std::to_string((sumUse + 2 * sumProt + 1) * U) + "\n");
+        fs.write("p", "memory.low", std::to_string(sumProt * U) + "\n");   // the children claim 2 * sumProt
+        fs.write("p", "memory.min", "0\n");
+        fs.write("p", "cgroup.events", "populated 1\n");
+      }
       for (auto& s : S) {
         fs.mkcg(s.name);
         long long use = tick < kTicks ? s.usage1 : s.usage;
         fs.write(s.name, "memory.current", std::to_string(use * U) + "\n");
-        fs.write(s.name, "memory.low", std::to_string(s.prot * U) + "\n");
+        fs.write(s.name, "memory.low", std::to_string((nested ? 2 : 1) * s.prot * U) + "\n");
         fs.write(s.name, "memory.min", "0\n");
         fs.write(s.name, "memory.swap.current", family == 8
             ? std::to_string((long long)((__int128)swapTotalB * pctB / 100) + (s.swap - 1000)) + "\n" : std::to_string(s.swap * U) + "\n");
@@ -164,7 +179,7 @@ int main(int argc, char** argv) {
     evEmit(J().str("e", "SReset").num("scn", scn).num("seed", (long long)seed));
     evEmit(J().str("e", "RankCase").str("U", std::to_string(U))
                .raw("P", J().str("plugin", plugin).num("thr", thr).num("P", P).num("rn", rn).num("rd", rd).boolean("biased", biased).num("sn", 1).num("sd", 2).done())
-               .raw("S", J::arr(sj)).str("first", first).raw("args", [&] { std::vector<std::string> kv; for (auto& [k, v] : args) kv.push_back(J::quote(k + "=" + v)); return J::arr(kv); }()));
+               .raw("S", J::arr(sj)).boolean("nested", nested).str("first", first).raw("args", [&] { std::vector<std::string> kv; for (auto& [k, v] : args) kv.push_back(J::quote(k + "=" + v)); return J::arr(kv); }()));
     evEmit(J().str("e", "SEnd"));
     ip().onOpened = nullptr; ip().onKill = nullptr;
   }
